@@ -75,6 +75,7 @@ type listStep struct {
 	result  string   // expected R payload ("" none)
 	result2 string   // a second R line
 	alt     string   // twin runs: the statements of the second run's last operation
+	pattern bool     // the fatal operation sits in the pattern of a following rule
 	twin    bool     // the last operation is executed in two runs whose endings are compared
 	q       bool     // a Q line follows (contains): R must equal the OR of the Q values
 	fatal   bool     // the operation must end the run with a runtime error
@@ -189,7 +190,7 @@ func (m *listModel) step(op *LOp) (listStep, error) {
 		if real < 0 {
 			real += n
 		}
-		if real < 0 || real > n+3 {
+		if real < 0 || real > n+14 {
 			return listStep{}, errUnsupported{"index"}
 		}
 		for len(*l) <= real {
@@ -278,6 +279,14 @@ func (m *listModel) step(op *LOp) (listStep, error) {
 			return listStep{}, errUnsupported{"index"}
 		}
 		return listStep{stmts: []string{R(fmt.Sprintf("%s[%d]", H, -k))}, fatal: true}, nil
+	case "before-start-pattern":
+		// the same, evaluated as (part of) the pattern of a further rule
+		k := n + 1 + op.Idx
+		if op.Idx < 0 || op.Arr == 1 {
+			return listStep{}, errUnsupported{"index"}
+		}
+		pat := []string{"%s[%d] == 1", "[1].contains(%s[%d])", "%s[%d] is number", "!%s[%d]"}[op.Idx%4]
+		return listStep{stmts: []string{"print \"LAST\"\n}\n" + fmt.Sprintf(pat, H, -k) + " { print \"PAT\" }\n{ print \"AFTER\""}, fatal: true, pattern: true}, nil
 	case "nested":
 		if op.Other == op.Arr && op.Nested != "push-selflen" {
 			return listStep{}, errUnsupported{"nested needs two different arrays"}
@@ -427,6 +436,7 @@ func runListCase(c *ListCase, keep bool) Outcome {
 	kinds := map[string]bool{}
 	fatalAt := -1
 	twinAlt := ""
+	fatalInPattern := false
 	for i := range c.Ops {
 		st, err := m.step(&c.Ops[i])
 		if err != nil {
@@ -444,6 +454,9 @@ func runListCase(c *ListCase, keep bool) Outcome {
 		}
 		if st.twin {
 			twinAlt = st.alt
+		}
+		if st.pattern {
+			fatalInPattern = true
 		}
 		if st.fatal {
 			fatalAt = i
@@ -613,6 +626,14 @@ func runListCase(c *ListCase, keep bool) Outcome {
 	}
 	if fatalAt >= 0 {
 		o.Probes["index_before_start"]++
+		if fatalInPattern {
+			// the rule body before the failing pattern still ran to its end
+			if li < len(lines) && lines[li] == "LAST" {
+				li++
+			} else {
+				li = -1
+			}
+		}
 		if kind != "RuntimeError" || li != len(lines) {
 			o.Class = "index-before-start-accepted"
 			o.Msg = fmt.Sprintf("operation #%d `%s` addresses an element before the start of the array: expected a runtime error and no further output, observed %s %q and %d further line(s)", fatalAt, opText(fatalAt), kind, msg, len(lines)-li)
@@ -723,6 +744,10 @@ func genListCase(t *Tape, maxOps int, bulk bool) *ListCase {
 				}
 			default:
 				op.Idx = ln + t.Draw(3)
+				if t.Chance(1, 4) {
+					// a long gap (the padding must be nulls whatever was popped before)
+					op.Idx = ln + 7 + t.Draw(6)
+				}
 			}
 		case 6:
 			op.Kind, op.Lit = "contains", listScalarLits[t.Draw(len(listScalarLits))]
@@ -753,7 +778,11 @@ func genListCase(t *Tape, maxOps int, bulk bool) *ListCase {
 	}
 	switch t.Weighted(8, 2, 3) {
 	case 1:
-		c.Ops = append(c.Ops, LOp{Arr: t.Draw(3), Kind: "before-start", Idx: t.Draw(3)})
+		kind := "before-start"
+		if t.Chance(1, 2) {
+			kind = "before-start-pattern"
+		}
+		c.Ops = append(c.Ops, LOp{Arr: []int{0, 2}[t.Draw(2)], Kind: kind, Idx: t.Draw(4)})
 	case 2:
 		// make sure containers and scalars are mixed: push a few of each first
 		a := t.Draw(3)
